@@ -1289,9 +1289,11 @@ def _pure_expr(e):
             root = f
             while isinstance(root, ast.Attribute):
                 root = root.value
-            ok = (isinstance(f, ast.Name) and (f.id in _PURE_NAMES or f.id in _RECORDS)) or (isinstance(f, ast.Attribute) and isinstance(root, ast.Name) and root.id in ("np", "numpy", "math"))
+            ok = (isinstance(f, ast.Name) and (f.id in _PURE_NAMES or f.id in _RECORDS)) or (isinstance(f, ast.Attribute) and isinstance(root, ast.Name) and root.id in ("np", "numpy", "math")) or (isinstance(f, ast.Attribute) and f.attr in ("sum", "min", "max", "all", "any", "transpose", "astype", "reshape", "flatten", "ravel", "copy", "mean", "cumsum", "dot", "tolist", "squeeze"))
             if not ok or any(isinstance(a, ast.Starred) for a in n.args) or any(k.arg is None for k in n.keywords):
                 return False
+        elif isinstance(n, ast.List) and all(isinstance(x, ast.Constant) for x in n.elts):
+            continue  # a fresh list of constants handed to a function
         elif isinstance(n, (ast.Lambda, ast.ListComp, ast.SetComp, ast.DictComp, ast.GeneratorExp, ast.NamedExpr, ast.Yield, ast.YieldFrom, ast.Await, ast.Starred, ast.List, ast.Dict, ast.Set)):
             return False
     return True
@@ -1383,6 +1385,39 @@ def _inline_pure_helpers(tree):
             # the definition goes when nothing refers to it any more
             if not any(isinstance(n, ast.Name) and n.id == hname and isinstance(n.ctx, ast.Load) for st in outer.body if not (isinstance(st, ast.FunctionDef) and st.name == hname) for n in ast.walk(st)):
                 outer.body = [st for st in outer.body if not (isinstance(st, ast.FunctionDef) and st.name == hname)] or [ast.Pass()]
+    # private static methods that are pure straight-line code: Class._h(..) / cls._h(..) / self._h(..)
+    for cdef in [n for n in tree.body if isinstance(n, ast.ClassDef)]:
+        statics = {}
+        for st in cdef.body:
+            if isinstance(st, ast.FunctionDef) and [ast.unparse(d) for d in st.decorator_list] == ["staticmethod"] and st.name.startswith("_") and not st.name.startswith("__"):
+                bare = copy.copy(st)
+                bare.decorator_list = []
+                q = qualifies(bare, need_private=False)
+                if q is not None:
+                    statics[st.name] = q
+        if not statics:
+            continue
+
+        class _InlS(ast.NodeTransformer):
+            def visit_Call(self, node):
+                self.generic_visit(node)
+                f = node.func
+                if isinstance(f, ast.Attribute) and f.attr in statics and isinstance(f.value, ast.Name) and f.value.id in ("self", "cls", cdef.name) and not node.keywords and not any(isinstance(x, ast.Starred) for x in node.args):
+                    params, body = statics[f.attr]
+                    if len(node.args) == len(params) and all(_simple(x) for x in node.args):
+                        env = dict(zip(params, node.args))
+                        for x in body[:-1]:
+                            tgt = x.targets[0] if isinstance(x, ast.Assign) else x.target
+                            env[tgt.id] = _Subst(env).visit(copy.deepcopy(x.value))
+                        out = _Subst(env).visit(copy.deepcopy(body[-1].value))
+                        if sum(1 for _ in ast.walk(out)) <= 600:
+                            count[0] += 1
+                            return ast.copy_location(out, node)
+                return node
+
+        for st in cdef.body:
+            if isinstance(st, ast.FunctionDef) and st.name not in statics:
+                _InlS().visit(st)
     if not helpers:
         return count[0]
 
